@@ -67,23 +67,20 @@ class ShapelyPolygon(Domain):
     ):
         n = self._compute_number_of_points(n, d, params)
         points = torch.empty((0, self.dim), device=device)
-        big_t, biggest_area = None, 0
         # instead of using a bounding box it is more efficient to triangulate
-        # the polygon and sample in each triangle.
-        for t in s_ops.triangulate(self.polygon):
-            scaled_n = int(t.area / self.polygon.area * n)
-            new_points = self._sample_in_triangulation(t, scaled_n, device)
-            if new_points is not None:
-                points = torch.cat((points, new_points), dim=0)
-            # remember the biggest triangle that was inside, if later
-            # some additional points need to be added (also if this triangle
-            # was too small to get a point, e.g. for n = 1)
-            if t.within(self.polygon) and t.area > biggest_area:
-                big_t = [t][0]
-                biggest_area = t.area
-            if len(points) == n:
-                break
-        points = self._check_enough_points_sampled(n, points, big_t, device)
+        # the polygon and sample in each triangle. The triangles cover the convex
+        # hull: the points are distributed randomly over the triangles w.r.t. their
+        # area (so every single point is uniformly distributed, also for small n)
+        # and points outside of the polygon are rejected.
+        triangles = s_ops.triangulate(self.polygon)
+        areas = torch.tensor([t.area for t in triangles], dtype=torch.float32)
+        while len(points) < n:
+            index = torch.multinomial(areas, n - len(points), replacement=True)
+            counts = torch.bincount(index, minlength=len(triangles))
+            for t, n_t in zip(triangles, counts):
+                new_points = self._sample_in_triangulation(t, int(n_t), device)
+                if new_points is not None:
+                    points = torch.cat((points, new_points), dim=0)
         # the points were created triangle by triangle, shuffle them so that
         # every single row is uniformly distributed in the whole polygon
         points = points[torch.randperm(len(points), device=device)]
